@@ -187,11 +187,11 @@ CLAIMED = {
              "interleaving relation), the shared cell ends up changed by exactly the sum of all amounts modulo its width, provided every instruction either "
              "leaves the cell alone or is the atomic add; C06_isa_xadd_atomic: the ISA's XADD is ONE step adding the source register to the cell; "
              "C06_rmw_refuted: a load/add/store lowering loses an update (machine-checked witness). Tie: 2-3 instances of the REAL generated statement for "
-             "every 4/8-byte format, += and -=, constant / register / expression amounts run on a shared map in the kernel-validated Coq ISA model, one "
+             "every 4/8-byte format, += and -=, constant / register / expression amounts run on a shared array map or hash-map variable in the kernel-validated Coq ISA model, one "
              "instruction at a time under round-robin, sequential, adversarial and random schedules; the final value must equal the model's and the exact "
              "sum, neighbouring bytes must be untouched.",
         note=TB + "Partial: the abstraction of the generated code to Priv/Add events is validated by the sampled executions, not proved; sequentially "
-             "consistent instruction interleaving is assumed (the atomicity of BPF_XADD itself is the kernel's / hardware's guarantee); hash-map values are not exercised.",
+             "consistent instruction interleaving is assumed (the atomicity of BPF_XADD itself is the kernel's / hardware's guarantee); the hash-map helper calls of the executor are those of coq/Corr/C09.v (not kernel-validated).",
         technique="Coq proof over all interleavings + multi-instance execution of real generated code in a kernel-validated ISA model",
         ref="5/C06"),
     "C26": dict(
